@@ -134,6 +134,63 @@ def methodless_master():
     nlp.match_rows("C07/methodless|direct_method:DirectMethod.transcribe:ensures:point-constraint", rows, [("le", (ufun("cc", 1, [V[:2], V[2], P[0], P[1]]) - 1).e[0], ("cc",))])
 
 
+def grid_control_contract(include_first, include_last):
+    """Stage._grid_control for ALL N >= 1 (symbolic), MultipleShooting pre-state (representation invariant of
+    add_variables / add_parameter, C14 contract): entry j of sample(e, grid='control') is e with every symbol read at
+    control node n_j -- states and include_last quantities at the node, controls and per-interval quantities of the
+    node's interval (last interval at the final node), time = the grid's node time; one time entry per value."""
+    import z3
+    from vc.core import fresh_int, unwrap_int, SymInt, isolated
+    from vc.symlist import SymList, vc_len
+    from vc import loops, contract
+    from .unbounded import Pre
+    from .backend import ufun
+    from rockit.stage import Stage
+    c = ctx()
+    pre = Pre(method="MS", M=1)
+    ocp, meth, N = pre.ocp, pre.meth, pre.N
+    if not include_first or not include_last:
+        c.assume((N >= 2).z)
+    atoms = [a for a in ("x", "u", "t", "p", "pc", "pcp", "v", "vc", "vcp")]
+    e = ufun("e", 1, [pre.sym_atoms[a] for a in atoms])
+    QUAL = "stage:Stage._grid_control"
+
+    def at_node(n):
+        """expected value at control node n in [0, N] (or -1 for the final node)"""
+        n = unwrap_int(n)
+        final = (n == -1) | (n == N)
+        if final:
+            node, k = N, unwrap_int(N - 1)
+        else:
+            node, k = n, n
+        d = pre.env(k, node=node)
+        d["x"] = pre.Xf(node)
+        d["t"] = ca.MX._raw(1, 1, [pre.tg(node)])
+        return ufun("e", 1, [d[a] for a in atoms])
+
+    def state(i, env):
+        ks = env["ks"]
+        return {"sub_expr": SymList(i, lambda j: at_node(ks[j]), "sub_expr")}
+
+    loops.SPECS.clear()
+    loops.SPECS[(QUAL, 0)] = loops.LoopSpec(state=state)
+    with loops.patched(Stage, "_grid_control", QUAL):
+        time, res = ocp._grid_control(ocp, e, "control", include_first=include_first, include_last=include_last)
+    tag = "[include_first=%s,include_last=%s]" % (include_first, include_last)
+    n_expected = N + 1 - (0 if include_first else 1) - (0 if include_last else 1)
+    c.prove(QUAL + ":ensures:number-of-values" + tag, res.shape[1] == n_expected)
+    c.prove(QUAL + ":ensures:one-time-entry-per-value" + tag, time.numel() == n_expected)
+    j = fresh_int("j")
+    c.assume((j >= 0).z)
+    c.assume((j < n_expected).z)
+
+    def post():
+        node = j if include_first else unwrap_int(j + 1)
+        nlp.prove_equal(QUAL + ":ensures:value-at-node" + tag, res[j], at_node(node))
+        nlp.prove_equal(QUAL + ":ensures:time-at-node" + tag, time[j], ca.MX._raw(1, 1, [pre.tg(node)]))
+    isolated(post, QUAL)
+
+
 def tasks(tier):
     out = [Task("C07/methodless-master", methodless_master, kind="bounded", bound=dict(variables=[2, 1], parameters=[1, 2]))]
     exprs = lambda: [(E("s1", 1, ("x", "u", "t", "p", "pc", "pcp", "v", "vc", "vcp", "T", "t0")), None),
@@ -154,9 +211,21 @@ def tasks(tier):
                     spec = Spec(method=meth, N=N, M=M, degree=2, grid=dict(g), T=Tk, t0=("unknown",), params=P, variables=P,
                                 ode=E("f", None, ("x", "u", "t")), label=label)
                     sample_check(spec, exprs(), gl, label)
-                out.append(Task(label, fn, kind="bounded", replay=None,
+                out.append(Task(label, fn, kind="bounded", replay=dict(harness="task_probe", module="contracts.c07", task=label, tier=tier),
                                 bound=dict(method=meth, N=N, M=M, grid=g, T=list(Tk), grids=gl)))
+    # algebraic variables of a DAE under collocation: sampled values at nodes / integrator points / collocation times
+    for (N, M) in ((2, 1), (3, 2)):
+        label = "C07/DC-dae-N%d-M%d" % (N, M)
+        def fn(N=N, M=M, label=label):
+            spec = Spec(method="DC", N=N, M=M, degree=2, T=("unknown",), t0=("unknown",), algebraics=[1], ode=E("f", None, ("x", "u", "z", "t")),
+                        alg=E("g", None, ("x", "z", "u")), label=label)
+            sample_check(spec, [(E("sz", 2, ("x", "z", "u", "t")), None)], ["control", "control-", "integrator", "integrator-", "integrator_roots"], label)
+        out.append(Task(label, fn, kind="bounded", replay=dict(harness="task_probe", module="contracts.c07", task=label, tier=tier), bound=dict(method="DC", N=N, M=M, algebraics=1)))
     from . import c08
     out += c08.tasks(tier, prop="C07")
+    for f_, l_ in ((True, True), (False, True), (True, False)):
+        out.append(Task("C07/proof/Stage._grid_control[N symbolic,first=%s,last=%s]" % (f_, l_), lambda f_=f_, l_=l_: grid_control_contract(f_, l_), kind="proof",
+                        functions=["stage:Stage._grid_control", "sampling_method:SamplingMethod.eval_at_control", "sampling_method:SamplingMethod._eval_at_control"],
+                        bound=dict(N="symbolic (all N>=1)", expression="uninterpreted scalar function of every kind of symbol", method="MultipleShooting pre-state")))
     out.append(Task("C07/DM2numpy", dm2numpy_enumerated, kind="enumerated", bound=dict(r="1..3", c="1..3", tdim="1,2,4")))
     return out
